@@ -354,6 +354,15 @@ func (b *Encoder) Read(p []byte) (n int, err error) {
 		}
 		break
 	}
+	if err == io.EOF && int64(n) < bytesLeft {
+		// The file is shorter than it was when it was scanned. Ending the part
+		// here would make every following part of this payload start early
+		// (the receiver reads end-beg bytes per part), so give up on the
+		// payload instead; the changed file is dropped when it is retried.
+		err = fmt.Errorf("%s ended before byte %d of the part being sent",
+			b.binPart.GetPath(), b.binPart.end)
+		return
+	}
 	bytesLeft -= int64(n)
 	b.partProgress += int64(n)
 	// logging.Debug("BIN Bytes Read", n, b.binPart.File.GetName(), bytesLeft)
